@@ -43,8 +43,9 @@ add("c02-work-minus1", "C02", "solver.py",
 add("c02-productivity-ignored", "C02", "solver.py",
     "work_contribution = required_resource.productivity * (\n                        interv_up - interv_low\n                    )",
     "work_contribution = 1 * (\n                        interv_up - interv_low\n                    )")
-add("c02-cumulative-size-plus1", "C02", "resource.py", "            for i in range(self.size)\n        ]",
-    "            for i in range(self.size + 1)\n        ]")
+add("c02-cumulative-units-not-exclusive", "C02", "solver.py",
+    "            busy_intervals = ress.get_busy_intervals()\n            nb_intervals = len(busy_intervals)",
+    "            busy_intervals = ress.get_busy_intervals()\n            nb_intervals = 0 if ress.name.endswith(\"_CumulativeWorker_2\") else len(busy_intervals)")
 add("c02-dynamic-inverted", "C02", "task.py",
     "                self.append_z3_assertion(resource_busy_start <= resource_busy_end)\n", "")
 # ---- C03
